@@ -3,12 +3,14 @@ import RustCcModel.Proofs.WeakInv5
 namespace RustCc
 open World
 
+variable {ex : Bool}
+
 set_option maxHeartbeats 8000000 in
-theorem execOp_weakH_neutral (c : Cfg) (w : World) (self wc : Option Id) (op : Op) (h : WeakH w [])
+theorem execOp_weakH_neutral (c : Cfg) (w : World) (self wc : Option Id) (op : Op) (h : WeakH ex w [])
     (hop : match op with
       | .unwrap _ | .down _ _ | .wclone _ _ | .wdrop _ | .wnew _ | .setw _ _ _ | .clrw _ _ | .cdrop _ | .downN _ _ | .wdropN _ _ => False
       | _ => True) :
-    WeakH (execOp c w self wc op) [] := by
+    WeakH ex (execOp c w self wc op) [] := by
   cases op with
   | unwrap _ | down _ _ | wclone _ _ | wdrop _ | wnew _ | setw _ _ _ | clrw _ _ | cdrop _ | downN _ _ | wdropN _ _ => cases hop
   | nop => exact h.ret _
